@@ -137,7 +137,8 @@ def impl(case):
             if case['writer'] == 'plot1d':
                 plot_params_1d(arg, pars[0], output_dir=os.path.join(d, 'plots'), select_format=sel, additional=add, bins=5)
             else:
-                plot_params_2d(arg, pars[0], pars[-1], output_dir=os.path.join(d, 'plots'), select_format=sel)
+                # the y axis is logarithmic by default; a parameter without any positive value has no such axis (the call is refused), so ask for a linear one then
+                plot_params_2d(arg, pars[0], pars[-1], output_dir=os.path.join(d, 'plots'), select_format=sel, log_y=any(v > 0 for v in case['table']['cols'][pars[-1]]))
             recs = list(verif_hook.RECORDS)
             del verif_hook.RECORDS[:]
             os.environ.pop('SEDFITTER_VERIF', None)
